@@ -120,16 +120,18 @@ impl Indexable for Vec<Value> {
     }
 
     fn get(&self, index: i64) -> Result<Value, Error> {
-        let index: Result<usize, std::num::TryFromIntError> = if index >= 0 {
-            index.try_into()
+        // a negative index counts from the end
+        let i = if index >= 0 {
+            usize::try_from(index).ok()
         } else {
-            (-index).try_into().map(|i: usize| self.len() - i)
+            usize::try_from(index.unsigned_abs())
+                .ok()
+                .and_then(|i| self.len().checked_sub(i))
         };
-        let i: usize = index.context("failed to cast index from i64")?;
-        if i >= self.len() {
-            bail!("index out of bounds: {}", i)
+        match i {
+            Some(i) if i < self.len() => Ok(self[i].clone()),
+            _ => bail!("index out of bounds: {}", index),
         }
-        Ok(self[i].clone())
     }
 }
 
